@@ -71,8 +71,17 @@ def load_plugins(config: 'ConfigService', custom=None) -> List['Plugin']:
         except Exception as e:
             logging.debug("Could not load plugin %s: %s", plugin, e)
 
-    loaded.sort(key=lambda pl: pl.order() or 0)
+    loaded.sort(key=__plugin_order)
     return loaded
+
+
+def __plugin_order(plugin) -> int:
+    # a plugin whose order() fails (or is not a number) must not stop the agent from starting: it gets the default order
+    try:
+        return int(plugin.order() or 0)
+    except Exception:
+        logging.debug("Could not read the order of plugin %s", plugin)
+        return 0
 
 
 class Plugin(abc.ABC):
